@@ -770,3 +770,96 @@ def check(ctx) -> None:
     from . import c05
 
     c05.rule_p1(ctx, pl, "C06-B8", only_duplicates=True)
+    rule_b9(ctx, pl)
+
+
+def rule_b9(ctx, pl: Pipeline, rule_id: str = "C06-B9") -> None:
+    """A stage may leave early because *no row of the batch needs it* only if everything it would have done concerns
+    those rows alone.  `if all(row[k] for row in rows): return rows` in front of code that also writes rows with `row[k]`
+    true makes such a row's result depend on whether a batch mate happens to have `row[k]` false."""
+    ctx.rule(rule_id, "no stage skips per-row work under an all()/any() over the batch unless that work is restricted to the rows the test is about", 0)
+    seen, n = set(), 0
+    for st in pl.stages:
+        f = st.callee
+        if f.qualname in seen or st.inline:
+            continue
+        seen.add(f.qualname)
+        names = f.params[1:] if (f.cls is not None and not f.is_static) else f.params
+        root = None
+        for i, a in enumerate(st.call.args):
+            if isinstance(a, ast.Name) and a.id == pl.rows_param and i < len(names):
+                root = names[i]
+        if root is None:
+            continue
+        for iff in [x for x in own_nodes(f.node) if isinstance(x, ast.If)]:
+            t, pol = iff.test, True
+            if isinstance(t, ast.UnaryOp) and isinstance(t.op, ast.Not):
+                t, pol = t.operand, False
+            if not (isinstance(t, ast.Call) and isinstance(t.func, ast.Name) and t.func.id in ("all", "any") and t.args and isinstance(t.args[0], (ast.GeneratorExp, ast.ListComp))):
+                continue
+            gen = t.args[0]
+            if not (len(gen.generators) == 1 and isinstance(gen.generators[0].iter, ast.Name) and gen.generators[0].iter.id == root and isinstance(gen.generators[0].target, ast.Name)):
+                continue
+            if not (iff.body and isinstance(iff.body[-1], ast.Return)):
+                continue
+            n += 1
+            # the row predicate: truthiness (or negated truthiness) of one column
+            rv = gen.generators[0].target.id
+            e, neg = gen.elt, False
+            if isinstance(e, ast.UnaryOp) and isinstance(e.op, ast.Not):
+                e, neg = e.operand, True
+            col = None
+            if isinstance(e, ast.Subscript) and isinstance(e.value, ast.Name) and e.value.id == rv:
+                col = frozenset(map(str, texts(ctx.ev.eval(e.slice, st.env))))
+            # rows for which the skipped work is meant: those that falsify an all(), satisfy an any()
+            want_not = (t.func.id == "all") != neg if pol else None
+            later = [s for s in st.stores if s.func is f and s.node.lineno > iff.lineno]
+            loose = []
+            for s in later:
+                restricted = col is not None and want_not is not None and any(a.kind == "truth" and set(map(str, a.keys)) & col and (a.op == "not") == want_not for a in s.atoms)
+                if not restricted:
+                    loose.append(s)
+            ok = not loose
+            ctx.instance(rule_id, "%s: early return under %s; %d later row store(s), %d not restricted to the rows the test is about" % (f.name, unparse(iff.test)[:60], len(later), len(loose)), f.loc(iff), ok=ok)
+            if not ok:
+                ctx.finding(rule_id, "%s:batch-level-shortcut" % f.qualname.split("synrbl.", 1)[-1], f.loc(iff), "%s returns early when %s, but the skipped code also writes rows the test is not about (%s ...): what such a row gets then depends on the other rows of its batch" % (f.name, unparse(iff.test)[:60], ", ".join(sorted({"|".join(sorted(map(str, s.keytexts))) for s in loose}))[:80]))
+    if n == 0:
+        ctx.note("%s: no stage leaves early under an all()/any() over the batch on this tree" % rule_id)
+    rule_b10(ctx)
+
+
+def rule_b10(ctx, rule_id: str = "C06-B10") -> None:
+    """Result rows carry only the keys that were set for them (issue / rules / confidence exist for MCS rows only).  A
+    front end that writes the output chunk by chunk must not take the column layout from the data of an earlier chunk:
+    `to_csv(mode="a", header=False)` of a frame re-indexed to the first chunk's columns silently drops every column the
+    first chunk did not happen to have, so a row's written result depends on its batch mates."""
+    ctx.rule(rule_id, "the command line does not append result chunks under a column layout taken from an earlier chunk", 0)
+    prog = ctx.prog
+    n = 0
+    for q, f in sorted(prog.functions.items()):
+        if not q.startswith("synrbl.SynCmd."):
+            continue
+        for c in [x for x in own_nodes(f.node) if isinstance(x, ast.Call) and isinstance(x.func, ast.Attribute) and x.func.attr == "to_csv"]:
+            mode = next((k.value for k in c.keywords if k.arg == "mode"), None)
+            if not (isinstance(mode, ast.Constant) and isinstance(mode.value, str) and "a" in mode.value):
+                continue
+            n += 1
+            # where do the appended frame's columns come from?
+            frame = c.func.value
+            layout = None
+            if isinstance(frame, ast.Name):
+                for _st, v, _i in assignments_to(f, frame.id):
+                    if isinstance(v, ast.Call) and isinstance(v.func, ast.Attribute) and v.func.attr == "reindex":
+                        layout = next((k.value for k in v.keywords if k.arg == "columns"), None)
+            data_derived = False
+            if isinstance(layout, ast.Name):
+                for _st, v, _i in assignments_to(f, layout.id):
+                    if any(isinstance(x, ast.Attribute) and x.attr in ("columns", "keys") for x in ast.walk(v)):
+                        data_derived = True
+            elif layout is None:
+                data_derived = True  # appended as it comes: columns of later chunks are matched by position only
+            ctx.instance(rule_id, "%s appends a chunk with to_csv(mode='a'); column layout: %s" % (f.name, unparse(layout) if layout is not None else "the chunk's own"), f.loc(c), ok=not data_derived)
+            if data_derived:
+                ctx.finding(rule_id, "%s:chunk-appended-under-first-chunk-layout" % q.split("synrbl.", 1)[-1], f.loc(c), "%s appends result chunks to the output under a column layout taken from chunk data (%s): result rows only carry the keys that were set for them, so columns missing from the first chunk are dropped from every later row" % (f.name, unparse(layout) if layout is not None else "none"))
+    if n == 0:
+        ctx.note("%s: the command line writes the output in one piece on this tree" % rule_id)
